@@ -400,3 +400,287 @@ Proof.
   intros H. rewrite retr_class_compute. unfold rclass_spec. f_equal. apply map_ext_in. intros i Hi.
   apply in_seq in Hi. apply H. lia.
 Qed.
+
+(* ==========================================================================================
+   4. HitRate / ReciprocalRank
+   ========================================================================================== *)
+Section SCAlg.
+Variables (C B : Type) (fvalid : C -> B -> bool) (f : C -> B -> list Qc).
+Lemma sc_merge_concat : forall ms s,
+  List.concat (sc_merge s ms) = fold_left (@app Qc) (map (@List.concat Qc) ms) (List.concat s).
+Proof.
+  unfold sc_merge. induction ms as [|m ms IH]; intros s; cbn [fold_left map]; [reflexivity|].
+  rewrite IH. f_equal. destruct m as [|x m]; cbn [is_nil].
+  - cbn. rewrite app_nil_r. reflexivity.
+  - rewrite concat_app. cbn [List.concat]. rewrite app_nil_r. reflexivity.
+Qed.
+Definition sc_alg : Alg (sc_metric C B fvalid f).
+Proof.
+  refine (Build_Alg (sc_metric C B fvalid f) (list Qc) (fun _ => []) (@app _) (fun _ _ => True) _ _ _ _ _
+            (fun _ s => List.concat s) (fun c b => f c b) (fun _ a => a) (fun _ _ => True) _ _ _ _ _ _ _).
+  - intros x y z. apply app_assoc.
+  - intros; exact I.
+  - intros; exact I.
+  - intros; reflexivity.
+  - intros; apply app_nil_r.
+  - intros; exact I.
+  - intros; exact I.
+  - intros; exact I.
+  - reflexivity.
+  - intros c s b _ _. split; [|exact I]. cbn. rewrite concat_app. cbn. rewrite app_nil_r. reflexivity.
+  - intros c s ms _ _. split; [|exact I]. cbn. apply sc_merge_concat.
+  - reflexivity.
+Defined.
+(* any merge tree: compute() = the per-sample results of the in-order stream, in that order *)
+Lemma sc_merge_tree c (t : mtree (sc_metric C B fvalid f)) :
+  Forall (fun b => fvalid c b = true) (stream (sc_metric C B fvalid f) t) ->
+  cmp (sc_metric C B fvalid f) c (run (sc_metric C B fvalid f) c t) = flat_map (f c) (stream (sc_metric C B fvalid f) t).
+Proof.
+  intros Hv. rewrite (merge_tree_compute _ sc_alg c t Hv). cbn [gamma sc_alg beta].
+  unfold prod. cbn [op e sc_alg]. generalize (stream (sc_metric C B fvalid f) t). intros l.
+  rewrite <- (app_nil_l (flat_map (f c) l)). generalize (@nil Qc).
+  induction l as [|b l IH]; intros acc; cbn [map fold_left flat_map]; [rewrite app_nil_r; reflexivity|].
+  rewrite IH, app_assoc. reflexivity.
+Qed.
+End SCAlg.
+
+Lemma filter_len_le {X} (g : X -> bool) : forall l, List.length (filter g l) <= List.length l.
+Proof. induction l as [|y l IH]; [cbn; lia|]. cbn [filter]. destruct (g y); cbn; lia. Qed.
+Lemma filter_length_lt {X} (g : X -> bool) l x : In x l -> g x = false -> List.length (filter g l) < List.length l.
+Proof.
+  induction l as [|y l IH]; intros Hin Hg; [destruct Hin|]. cbn [filter]. destruct Hin as [->|Hin].
+  - rewrite Hg. pose proof (filter_len_le g l). cbn. lia.
+  - specialize (IH Hin Hg). destruct (g y); cbn; lia.
+Qed.
+Lemma in_range_nth smp : in_range smp = true -> In (nth (Z.to_nat (snd smp)) (fst smp) 0%Z) (fst smp).
+Proof.
+  unfold in_range. intros H. apply andb_prop in H as [H1 H2]. apply Z.leb_le in H1. apply Z.ltb_lt in H2.
+  apply nth_In. lia.
+Qed.
+(* the rank is below the number of candidates *)
+Lemma rk_rank_lt smp : in_range smp = true -> (0 <= rk_rank (fst smp) (snd smp) < Z.of_nat (List.length (fst smp)))%Z.
+Proof.
+  intros H. unfold rk_rank. split; [lia|]. apply Nat2Z.inj_lt.
+  apply (filter_length_lt _ _ _ (in_range_nth smp H)). rewrite Z.gtb_ltb. apply Z.ltb_irrefl.
+Qed.
+(* hit_rate: the "k >= num_classes => ones" shortcut agrees with the rank rule *)
+Theorem hit_one_rank_rule k smp : in_range smp = true ->
+  hit_one (Some k) smp = if (rk_rank (fst smp) (snd smp) <? k)%Z then 1%Qc else 0%Qc.
+Proof.
+  intros H. unfold hit_one, hit_short. destruct (Z.leb_spec (Z.of_nat (List.length (fst smp))) k) as [Hk|Hk]; [|reflexivity].
+  pose proof (rk_rank_lt smp H). destruct (Z.ltb_spec (rk_rank (fst smp) (snd smp)) k); [reflexivity|lia].
+Qed.
+Theorem hit_all_ones k b : Forall (fun s => (Z.of_nat (List.length (fst s)) <= k)%Z) b ->
+  hit_fn (Some k) b = map (fun _ => 1%Qc) b.
+Proof.
+  intros H. unfold hit_fn. apply map_ext_in. intros s Hs. rewrite Forall_forall in H. specialize (H s Hs).
+  unfold hit_one, hit_short. destruct (Z.leb_spec (Z.of_nat (List.length (fst s))) k); [reflexivity|lia].
+Qed.
+
+(* rank by explicit sorting: in EVERY weakly descending arrangement of the row the first element
+   carrying the target's score sits at position (number of strictly greater scores) *)
+Definition count_gt (y : Z) (l : list Z) : Z := Z.of_nat (List.length (filter (fun x => Z.gtb x y) l)).
+Lemma count_gt_cons y x l : count_gt y (x :: l) = ((if (x >? y)%Z then 1 else 0) + count_gt y l)%Z.
+Proof. unfold count_gt. cbn [filter]. destruct (x >? y)%Z; [cbn [List.length]; lia|reflexivity]. Qed.
+Lemma count_gt_perm y l l' : Permutation l l' -> count_gt y l = count_gt y l'.
+Proof.
+  induction 1 as [|x l l' Hp IH|x z l|l1 l2 l3 _ IH1 _ IH2]; [reflexivity| | |congruence].
+  - rewrite !count_gt_cons, IH. reflexivity.
+  - rewrite !count_gt_cons. lia.
+Qed.
+Definition wdescZ (l : list Z) : Prop := StronglySorted (fun a b => (b <= a)%Z) l.
+Lemma first_pos_count y : forall s, wdescZ s -> In y s -> first_pos y s = count_gt y s.
+Proof.
+  induction s as [|x r IH]; intros Hs Hin; [destruct Hin|].
+  inversion Hs as [|? ? Hr Hall]; subst. rewrite Forall_forall in Hall. rewrite count_gt_cons. cbn [first_pos].
+  destruct (Z.eqb_spec x y) as [->|Hne].
+  - rewrite Z.gtb_ltb, Z.ltb_irrefl. unfold count_gt.
+    rewrite (filter_ext_in _ (fun _ => false)).
+    + clear. induction r; [reflexivity|assumption].
+    + intros z Hz. specialize (Hall z Hz). rewrite Z.gtb_ltb. apply Z.ltb_ge. exact Hall.
+  - destruct Hin as [->|Hin]; [congruence|]. specialize (Hall y Hin).
+    rewrite (IH Hr Hin). rewrite Z.gtb_ltb. destruct (Z.ltb_spec y x); [reflexivity|lia].
+Qed.
+Theorem rank_any_sorting row t s : in_range (row, t) = true -> Permutation row s -> wdescZ s ->
+  rk_rank row t = first_pos (nth (Z.to_nat t) row 0%Z) s.
+Proof.
+  intros Hr Hp Hs. pose proof (in_range_nth (row, t) Hr) as Hin. cbn [fst snd] in Hin.
+  rewrite (first_pos_count _ s Hs) by (eapply Permutation_in; eassumption).
+  unfold rk_rank. fold (count_gt (nth (Z.to_nat t) row 0%Z) row). apply count_gt_perm, Hp.
+Qed.
+Lemma ins_desc_perm x : forall l, Permutation (ins_desc x l) (x :: l).
+Proof.
+  induction l as [|y r IH]; [apply Permutation_refl|]. cbn [ins_desc].
+  destruct (y <=? x)%Z; [apply Permutation_refl|].
+  eapply Permutation_trans; [apply perm_skip, IH|apply perm_swap].
+Qed.
+Lemma sort_desc_perm : forall l, Permutation l (sort_desc l).
+Proof.
+  induction l as [|x l IH]; [apply Permutation_refl|]. change (sort_desc (x :: l)) with (ins_desc x (sort_desc l)).
+  apply Permutation_sym. eapply Permutation_trans; [apply ins_desc_perm|apply perm_skip, Permutation_sym, IH].
+Qed.
+Lemma ins_desc_sorted x : forall l, wdescZ l -> wdescZ (ins_desc x l).
+Proof.
+  induction l as [|y r IH]; intros Hs; [cbn; constructor; constructor|].
+  cbn [ins_desc]. inversion Hs as [|? ? Hr Hall]; subst. destruct (Z.leb_spec y x) as [E|E].
+  - constructor; [exact Hs|]. constructor; [exact E|]. rewrite Forall_forall in *. intros z Hz. specialize (Hall z Hz). lia.
+  - constructor; [apply IH, Hr|]. rewrite Forall_forall in *. intros z Hz.
+    apply (Permutation_in _ (ins_desc_perm x r)) in Hz. destruct Hz as [<-|Hz]; [lia|apply Hall, Hz].
+Qed.
+Lemma sort_desc_sorted : forall l, wdescZ (sort_desc l).
+Proof. induction l as [|x l IH]; [constructor|]. change (sort_desc (x :: l)) with (ins_desc x (sort_desc l)). apply ins_desc_sorted, IH. Qed.
+Lemma rank_by_sorting_eq smp : in_range smp = true -> rank_by_sorting (fst smp) (snd smp) = rk_rank (fst smp) (snd smp).
+Proof.
+  intros H. symmetry. destruct smp as [row t]. apply rank_any_sorting; [exact H|apply sort_desc_perm|apply sort_desc_sorted].
+Qed.
+Theorem hit_one_spec k smp : in_range smp = true -> hit_one k smp = hit_spec_one k smp.
+Proof.
+  intros H. destruct k as [k|]; [|reflexivity]. rewrite (hit_one_rank_rule k smp H).
+  unfold hit_spec_one. rewrite (rank_by_sorting_eq smp H). reflexivity.
+Qed.
+Theorem rr_one_spec k smp : in_range smp = true -> rr_one k smp = rr_spec_one k smp.
+Proof.
+  intros H. unfold rr_one, rr_spec_one. rewrite (rank_by_sorting_eq smp H). destruct k as [k|]; [|reflexivity].
+  destruct (Z.leb_spec k (rk_rank (fst smp) (snd smp))), (Z.ltb_spec (rk_rank (fst smp) (snd smp)) k); try reflexivity; lia.
+Qed.
+
+(* ==========================================================================================
+   5. collisions, frequency, CTR, weighted calibration
+   ========================================================================================== *)
+Lemma filter_eqb_count x : forall l, List.length (filter (fun y => Z.eqb y x) l) = count_occ Z.eq_dec l x.
+Proof.
+  induction l as [|y l IH]; [reflexivity|]. cbn [filter count_occ].
+  destruct (Z.eq_dec y x) as [->|Hne]; [rewrite Z.eqb_refl; cbn [List.length]; rewrite IH; reflexivity|].
+  destruct (Z.eqb_spec y x); [congruence|exact IH].
+Qed.
+Theorem collisions_fn_spec l : collisions_fn l = collisions_spec l.
+Proof. unfold collisions_fn, collisions_spec. apply map_ext. intros x. rewrite filter_eqb_count. reflexivity. Qed.
+
+Lemma qlt_iff a b : qlt a b = true <-> (a < b)%Qc.
+Proof.
+  unfold qlt, Qclt. rewrite Qlt_alt. unfold Qccompare. destruct (this a ?= this b)%Q; split; congruence.
+Qed.
+Lemma nth_map_lt {X Y} (g : X -> Y) d d' : forall l i, i < List.length l -> nth i (map g l) d = g (nth i l d').
+Proof. induction l as [|x l IH]; intros i Hi; [cbn in Hi; lia|]. destruct i; [reflexivity|]. cbn. apply IH. cbn in Hi. lia. Qed.
+Theorem frequency_fn_spec k l : List.length (frequency_fn k l) = List.length l /\
+  forall i, i < List.length l ->
+    (((nth i l 0) < k)%Qc -> nth i (frequency_fn k l) 0%Qc = 1%Qc) /\
+    (~ ((nth i l 0) < k)%Qc -> nth i (frequency_fn k l) 0%Qc = 0%Qc).
+Proof.
+  unfold frequency_fn. split; [apply map_length|]. intros i Hi.
+  rewrite (nth_map_lt _ 0%Qc 0%Qc l i Hi). split; intros H.
+  - apply qlt_iff in H. rewrite H. reflexivity.
+  - destruct (qlt (nth i l 0%Qc) k) eqn:E; [apply qlt_iff in E; contradiction|reflexivity].
+Qed.
+
+(* explicit per-sample weights of a row *)
+Definition weights_of (w : rk_w) (i : nat) (xs : list Qc) : list Qc :=
+  match w with WSc w => repeat w (List.length xs) | WTen ws => nth i ws [] end.
+Lemma sum_scalar (w : Qc) : forall xs, (w * rk_sumQ xs = rk_sumQ (map2 Qcmult (repeat w (List.length xs)) xs))%Qc.
+Proof.
+  induction xs as [|x xs IH]; cbn [rk_sumQ fold_right List.length repeat map2]; [ring|].
+  fold (rk_sumQ xs). fold (rk_sumQ (map2 Qcmult (repeat w (List.length xs)) xs)). rewrite <- IH. ring.
+Qed.
+Lemma zq_add a b : zq (a + b) = (zq a + zq b)%Qc.
+Proof.
+  unfold zq, mkq. apply Qc_is_canon. unfold Qcplus, Q2Qc. cbn [this]. rewrite !Qred_correct.
+  unfold Qeq, Qplus. cbn. lia.
+Qed.
+Lemma sum_repeat (w : Qc) : forall n, (w * zq (Z.of_nat n) = rk_sumQ (repeat w n))%Qc.
+Proof.
+  induction n as [|n IH].
+  - change (zq (Z.of_nat 0)) with 0%Qc. cbn [repeat rk_sumQ fold_right]. ring.
+  - cbn [repeat rk_sumQ fold_right]. fold (rk_sumQ (repeat w n)). rewrite <- IH.
+    rewrite Nat2Z.inj_succ, <- Z.add_1_l, zq_add. change (zq 1) with 1%Qc. ring.
+Qed.
+Theorem wdot_spec w i xs : wdot w i xs = rk_sumQ (map2 Qcmult (weights_of w i xs) xs).
+Proof. destruct w as [w|ws]; cbn [wdot weights_of]; [apply sum_scalar|reflexivity]. Qed.
+Theorem wtotal_spec w i xs : wtotal w i xs = rk_sumQ (weights_of w i xs).
+Proof. destruct w as [w|ws]; cbn [wtotal weights_of]; [apply sum_repeat|reflexivity]. Qed.
+
+(* ==========================================================================================
+   6. witnesses: where the faithful class model falsifies "class = definition on all data seen"
+   ========================================================================================== *)
+Definition wit_cfg (a : action) : rcfg := Build_rcfg a (Some 1) false 1 false 1024.
+Definition wit_d3 : list rbatch := [([900; 100]%Z, [1; 1]%Z, None)].
+Definition wit_d4 : list rbatch := [([900; 100]%Z, [0; 1]%Z, None)].
+Definition class_after (recall : bool) (c : rcfg) (bs : list rbatch) : rout :=
+  cmp (retr_metric recall) c (fold_left (upd (retr_metric recall) c) bs (init (retr_metric recall) c)).
+Definition valid_tie_free (c : rcfg) (bs : list rbatch) : Prop :=
+  Forall (fun b => rvalid c b = true) bs /\ forall i, i < r_nq c -> tie_free (rdata c i bs).
+
+Lemma wit_ok a bs : bs = wit_d3 \/ bs = wit_d4 -> valid_tie_free (wit_cfg a) bs.
+Proof.
+  intros [-> | ->]; (split; [repeat constructor|]); intros i Hi; cbn in Hi;
+    (destruct i; [|lia]); unfold tie_free; cbn; repeat constructor; cbn; intuition discriminate.
+Qed.
+(* D3: k=1, scores [.9,.1], labels [1,1]: the class says 1, the definition 1/2 *)
+Lemma recall_class_refuted :
+  exists c bs, valid_tie_free c bs /\ r_k c <> Some 0 /\
+    class_after true c bs = RVec [Fin 1%Qc] /\ rclass_spec true c bs = RVec [Fin (mkq 1 2)].
+Proof.
+  exists (wit_cfg ANeg), wit_d3. split; [apply wit_ok; left; reflexivity|]. split; [discriminate|].
+  split; vm_compute; first [reflexivity | repeat f_equal; apply Qc_is_canon; reflexivity].
+Qed.
+(* D4: k=1, scores [.9,.1], labels [0,1], action "pos": the only relevant item was pruned; the
+   class applies empty_target_action (1.0), the definition gives 0 *)
+Lemma precision_pruned_pos_refuted :
+  exists c bs, valid_tie_free c bs /\ r_k c <> Some 0 /\
+    (exists i, i < r_nq c /\ has1 (rdata c i bs) = true) /\
+    class_after false c bs = RVec [Fin 1%Qc] /\ rclass_spec false c bs = RVec [Fin 0%Qc].
+Proof.
+  exists (wit_cfg APos), wit_d4. split; [apply wit_ok; right; reflexivity|]. split; [discriminate|].
+  split; [exists 0; split; [cbn; lia|reflexivity]|].
+  split; vm_compute; first [reflexivity | repeat f_equal; apply Qc_is_canon; reflexivity].
+Qed.
+(* same input, action "err": compute() raises although a relevant item was seen *)
+Lemma precision_pruned_err_refuted :
+  class_after false (wit_cfg AErr) wit_d4 = RErr /\ rclass_spec false (wit_cfg AErr) wit_d4 = RVec [Fin 0%Qc].
+Proof. split; vm_compute; first [reflexivity | repeat f_equal; apply Qc_is_canon; reflexivity]. Qed.
+Lemma recall_pruned_pos_refuted :
+  class_after true (wit_cfg APos) wit_d4 = RVec [Fin 1%Qc] /\ rclass_spec true (wit_cfg APos) wit_d4 = RVec [Fin 0%Qc].
+Proof. split; vm_compute; first [reflexivity | repeat f_equal; apply Qc_is_canon; reflexivity]. Qed.
+
+(* C01: merge_state concatenates WITHOUT re-pruning, and compute() looks at the un-pruned state:
+   a merged pair differs from one instance that saw both batches *)
+Definition wit_tree (recall : bool) (bs1 bs2 : list rbatch) : mtree (retr_metric recall) :=
+  Merge (retr_metric recall) (Shard (retr_metric recall) bs1) [Shard (retr_metric recall) bs2] [].
+Definition b1 (z y : Z) : rbatch := ([z], [y], None).
+Lemma precision_merge_refuted :
+  let t := wit_tree false [b1 900 0] [b1 100 1] in
+  cmp (retr_metric false) (wit_cfg APos) (run (retr_metric false) (wit_cfg APos) t) = RVec [Fin 0%Qc] /\
+  cmp (retr_metric false) (wit_cfg APos) (run (retr_metric false) (wit_cfg APos) (Shard (retr_metric false) (stream (retr_metric false) t))) = RVec [Fin 1%Qc].
+Proof. split; vm_compute; first [reflexivity | repeat f_equal; apply Qc_is_canon; reflexivity]. Qed.
+Lemma recall_merge_refuted :
+  let t := wit_tree true [b1 900 1] [b1 100 1] in
+  cmp (retr_metric true) (wit_cfg ANeg) (run (retr_metric true) (wit_cfg ANeg) t) = RVec [Fin (mkq 1 2)] /\
+  cmp (retr_metric true) (wit_cfg ANeg) (run (retr_metric true) (wit_cfg ANeg) (Shard (retr_metric true) (stream (retr_metric true) t))) = RVec [Fin 1%Qc].
+Proof. split; vm_compute; first [reflexivity | repeat f_equal; apply Qc_is_canon; reflexivity]. Qed.
+
+Theorem rprec_class_eq c bs : r_k c <> Some 0 ->
+  (forall i, i < r_nq c -> tie_free (rdata c i bs) /\
+     (has1 (topk (r_k c) (rdata c i bs)) = true \/ has1 (rdata c i bs) = false)) ->
+  class_after false c bs = rclass_spec false c bs.
+Proof.
+  intros Hk H. apply retr_class_eq_spec. intros i Hi. destruct (H i Hi) as [Ht Hc]. apply rquery_prec_eq; assumption.
+Qed.
+Theorem rrecall_class_eq c bs : r_k c <> Some 0 ->
+  (forall i, i < r_nq c -> tie_free (rdata c i bs) /\
+     sumlab (topk (r_k c) (rdata c i bs)) = sumlab (rdata c i bs) /\
+     has1 (topk (r_k c) (rdata c i bs)) = has1 (rdata c i bs)) ->
+  class_after true c bs = rclass_spec true c bs.
+Proof.
+  intros Hk H. apply retr_class_eq_spec. intros i Hi. destruct (H i Hi) as [Ht [Hs Hh]]. apply rquery_recall_eq; assumption.
+Qed.
+
+Lemma map2_mapi_from {X} (g : Qc -> Qc -> Qc) (f1 f2 : nat -> X -> Qc) : forall l i,
+  map2 g (mapi_from i f1 l) (mapi_from i f2 l) = mapi_from i (fun j x => g (f1 j x) (f2 j x)) l.
+Proof. induction l as [|x l IH]; intros i; cbn [mapi_from map2]; [reflexivity|]. rewrite IH. reflexivity. Qed.
+(* click-through rate of one call: per task  sum_j w_j x_j / (sum_j w_j + tiny) *)
+Theorem ctr_fn_spec nt b :
+  ctr_fn nt b = mapi (fun i xs => (rk_sumQ (map2 Qcmult (weights_of (snd b) i xs) xs) /
+                                   (rk_sumQ (weights_of (snd b) i xs) + tiny32))%Qc) (fst b).
+Proof.
+  unfold ctr_fn, mapi. rewrite map2_mapi_from. generalize 0 at 1 2. induction (fst b) as [|xs l IH]; intros i; [reflexivity|].
+  cbn [mapi_from]. rewrite IH. unfold ctr_ratio. rewrite wdot_spec, wtotal_spec. reflexivity.
+Qed.
